@@ -11,15 +11,16 @@ META = {
     'text': 'Kernel-checked, unbounded theorems for the model of FS.resolveSymlink/Stat/Open/ReadDir and of handleSymlink/TargetOutsideRoot. The model is tied to the Go code by '
             'building real two-layer images for every symlink graph on up to 5 named entries (file / dir / missing / deleted by the later layer / relative or absolute link to any entry) '
             'x MaxSymlinkDepth 0..6 (thorough: 559 630 graphs, all of them) or a seeded 3 000-graph sample with longer chains, noisy link spellings and outside-root targets (quick), and '
-            'comparing Stat, Open+Stat and ReadDir of every entry in both views. Absolute link names in non-canonical spelling (/./a, //a, /d/; repaired by fix a23f8926) are part of the random stream and of the corpus as a strict regression case.',
+            'comparing Stat, Open (its own result and Stat on the handle) and ReadDir of every entry in both views, each judged strictly against the sentence (no slack at the budget edge). Absolute link names in non-canonical spelling (/./a, //a, /d/; repaired by fix a23f8926) are part of the random stream and of the corpus as a strict regression case.',
     'note': 'Trusted: Lean kernel; axioms propext/Quot.sound/Classical.choice at most; the Go harness, go-containerregistry image construction and the line protocol; node identity in a view = tree key; '
             'the uuid marker of TargetOutsideRoot occurs in no path segment; path.Clean/Join modelled at segment level.',
 }
 P = 'Scalibr.Symlink.'
 THEOREMS = [P + t for t in (
     'C17_terminates', 'C17_ok_iff', 'C17_never_wrong', 'C17_depth_independent', 'C17_notfound', 'C17_notExist_only_if',
-    'C17_otherwise', 'C17_cycle_real', 'C17_stat_meets_spec', 'C17_open_then_stat', 'C17_outside', 'C17_outside_iff',
-    'C17_target_canonical', 'C17_stored_target', 'C17_denoted_is_stored')]
+    'C17_otherwise', 'C17_cycle_real', 'C17_spec_reads_sentence', 'C17_stat_meets_spec', 'C17_open_meets_spec',
+    'C17_readdir_follows_open', 'C17_open_then_stat', 'C17_outside', 'C17_outside_iff',
+    'C17_target_canonical', 'C17_stored_target')]
 
 
 def _entries(case):
@@ -34,8 +35,7 @@ def _entries(case):
 
 
 def _allowed(spec, got):
-    if spec == 'b':
-        return got in ('n', 'c', 'p')
+    """strict: one verdict, one class (e = cycle or depth, the property's own 'or')"""
     if spec == 'e':
         return got in ('c', 'p')
     return spec == got
@@ -52,7 +52,7 @@ def run(ctx):
     ctx.rule = ('case = one symlink graph (entries: F file, D dir, M missing, X deleted by layer 1, L symlink, Y symlink deleted by layer 1) observed at depths 0..6 in both views; '
                 'thorough enumerates every graph on 1..5 names with relative and absolute canonical link spellings (6+64+1000+20736+537824 graphs; 5 names use the layout a,b,c,s/d,s/e); '
                 'random cases use up to 9 names in nested directories, 40% long chains, noisy/unclean/outside-root/empty link names. non-trivial = at least two symlink entries; '
-                'distinct = distinct case lines. oracle = specWalk verdict of the Lean driver (computed on the graph whose links point where their names DENOTE) vs the implementation\'s Stat and Open+Stat classes')
+                'distinct = distinct case lines. oracle = specWalk verdict of the Lean driver (the sentence read strictly, on the graph whose links point where their names DENOTE by the specification\'s own lexical resolver) vs the implementation\'s Stat class, Open\'s own class and ReadDir\'s error class')
     ok, _ = ctx.lean_build(['Scalibr.Properties.C17', 'drv_c17'])
     proofs_ok = ctx.audit(['Scalibr.Properties.C17'], THEOREMS)
     if ctx.tier == 'thorough':
@@ -72,12 +72,16 @@ def run(ctx):
                     parts = it.split('.')
                     if len(parts) != 3:
                         return 'unparsable observation %r' % it
-                    s, o = parts[0], parts[1]
-                    oc = o[1:] if o.startswith('o') else o
-                    if not _allowed(st, s) or not _allowed(st, oc):
-                        return ('entry %s, view %d, MaxSymlinkDepth %d: Stat=%s Open+Stat=%s but the chain walk allows only %s '
-                                '(f/d<hex name> = that node, n = not-exist, b = any error, e = cycle or depth)'
-                                % (binascii.unhexlify(n).decode(), v, d, s, oc, st))
+                    s, o, r = parts
+                    # Open is judged on ITS OWN result: "on" = a handle was returned for something whose Stat says
+                    # not-exist; that is not "not found"
+                    oc = 'handle-then-not-exist' if o == 'on' else (o[1:] if o.startswith('o') else o)
+                    # ReadDir must fail with the verdict's class whenever the verdict is an error
+                    rd_ok = _allowed(st, r[:1]) if st in ('n', 'e') else True
+                    if not _allowed(st, s) or not _allowed(st, oc) or not rd_ok:
+                        return ('entry %s, view %d, MaxSymlinkDepth %d: Stat=%s Open=%s ReadDir=%s but the sentence prescribes %s '
+                                '(f/d<hex name> = that node, n = not-exist, e = cycle or depth; l… = a listing)'
+                                % (binascii.unhexlify(n).decode(), v, d, s, oc, r, st))
             d += 1
         return None
 
